@@ -149,3 +149,13 @@ func init() {
 }
 
 func init() { prop("C04", "C07-R1") }
+
+func init() {
+	prop("C17", "C17-R4")
+	prop("C19", "C17-R4")
+}
+
+func init() {
+	prop("C01", "C01-R8")
+	prop("C20", "C01-R8")
+}
